@@ -278,7 +278,8 @@ class Rules:
         if fname in ('rate.rs', 'engine.rs') or fname.startswith('rate/rate_') or fname.startswith('engine/engine_'):
             src = self.r11_assoc(fname, src)
         if fname in ARCH_FILES:
-            src = self.r10_model(fname, src) if self.arch == 'x86_64' else self.r10_simd(fname, src)
+            # every SIMD engine file has an intrinsic model (build() only reads the files of the current view)
+            src = self.r10_model_neon(fname, src) if ARCH_FILES[fname] == 'aarch64' else self.r10_model(fname, src)
         src = self.r_vis(fname, src)
         return src
 
@@ -465,9 +466,60 @@ class Rules:
                     ed.add(it.body_open + m.start(), it.body_open + m.end(), 'store%s(%s, %s,' % (w, X, m.group(1) or '0'), 'R10')
         return ed.apply()
 
+    def r10_model_neon(self, fname, src):
+        """Neon engine (aarch64 view): keep every kernel, verified over the intrinsic model of prelude.rs `neon`.
+        (a) `use std::arch::aarch64::*` -> the model module (`uint8x16_t` and the intrinsics keep their names);
+        (b) raw-pointer plumbing, per function: `let P: *mut u8 = X.as_mut_ptr();` is dropped and every
+            `vld1q_u8(P)` / `vld1q_u8(P.add(E))` / `vst1q_u8(P, v)` / `vst1q_u8(P.add(E), v)` becomes
+            `nload(X, 0)` / `nload(X, E)` / `nstore(X, 0, v)` / `nstore(X, E, v)` where E is the literal byte-offset expression
+            of the source (`16`, `16 * 2`, `16 * 3`), copied verbatim (X: &mut [u8; 64]; the in-bounds condition
+            E + 16 <= 64 is the stub's precondition);
+        (c) `vld1q_u8(std::ptr::from_ref::<u128>(&E).cast::<u8>())` -> `nload_u128(&E)`;
+        (d) R21 as for the x86 engines.
+        Anything pointer-shaped that these patterns do not cover is left as is and fails in Verus' front end (localised): a
+        pointer bound more than once in a function is not rewritten at all, a use of a dropped pointer outside the two
+        intrinsics names a variable that no longer exists.
+        `#[target_feature(enable = "neon")]` becomes a comment: Verus runs rustc for the host target, which rejects a feature
+        name of another architecture. The attribute only selects code generation; what it demands of the caller is stated by
+        the overlay as `requires cpu_has_neon()` on exactly these functions (C14), as for the x86 entry points."""
+        src = self.regex_rule('R10', fname, src, r'use std::arch::aarch64::\*;', 'use crate::vprelude::neon::*;')
+        src = self.regex_rule('R10', fname, src, r'#\[target_feature\(enable = "neon"\)\]', '// R10: #[target_feature(enable = "neon")]')
+        src = self.regex_rule('R10', fname, src, r'vld1q_u8\(\s*std::ptr::from_ref::<u128>\(&([^()]+?)\)\s*\.cast::<u8>\(\),?\s*\)', r'nload_u128(&\1)')
+        # R21: destructuring assignment of a pair `(a, b) = e;` -> `let t = e; a = t.0; b = t.1;` (its definition; Verus lacks the sugar)
+        src = self.regex_rule('R21', fname, src, r'(?m)^([ \t]*)\((\w+), (\w+)\) = ([^;\n]+);', lambda m: '%slet r21_%s = %s; %s = r21_%s.0; %s = r21_%s.1;' % (m.group(1), m.group(2), m.group(4), m.group(2), m.group(2), m.group(3), m.group(2)))
+        items = rsx.parse_items(src)
+        ed = Edits(src)
+        OFF = r'\d+(?:[ \t]*\*[ \t]*\d+)?'    # literal byte offset: `16`, `16 * 2`
+        for it in rsx.walk(items):
+            if it.kind != 'fn' or it.body_open is None:
+                continue
+            body = src[it.body_open:it.end]
+            ptrs, decl = {}, {}
+            for m in re.finditer(r'[ \t]*let (\w+): \*mut u8 = (\w+)\.as_mut_ptr\(\);[ \t]*\n', body):
+                decl.setdefault(m.group(1), []).append(m)
+            for P, ms in decl.items():
+                # the name must be bound exactly once in the function (any other `let P` makes P -> X ambiguous: left alone)
+                if len(ms) != 1 or len(re.findall(r'\blet\s+(?:mut\s+)?%s\b' % P, body)) != 1:
+                    continue
+                m = ms[0]
+                ptrs[P] = m.group(2)
+                ed.add(it.body_open + m.start(), it.body_open + m.end(), '', 'R10')
+                self.note('R10', fname, src, it.body_open + m.start(), 'pointer %s = %s as *mut u8' % (P, m.group(2)))
+            for P, X in ptrs.items():
+                for m in re.finditer(r'\bvld1q_u8\(\s*%s(?:\.add\((%s)\))?\s*\)' % (P, OFF), body):
+                    new = 'nload(%s, %s)' % (X, m.group(1) or '0')
+                    ed.add(it.body_open + m.start(), it.body_open + m.end(), new, 'R10')
+                    self.note('R10', fname, src, it.body_open + m.start(), '%s -> %s' % (m.group(0), new))
+                for m in re.finditer(r'\bvst1q_u8\(\s*%s(?:\.add\((%s)\))?\s*,' % (P, OFF), body):
+                    new = 'nstore(%s, %s,' % (X, m.group(1) or '0')
+                    ed.add(it.body_open + m.start(), it.body_open + m.end(), new, 'R10')
+                    self.note('R10', fname, src, it.body_open + m.start(), '%s -> %s' % (m.group(0), new))
+        return ed.apply()
+
     def r10_simd(self, fname, src):
         """drop leaf kernels that mention SIMD types; blank the body of fns that call them.
-        (Used for the Neon engine: there is no model of the Neon intrinsics.)
+        (The rule every SIMD engine went through before the intrinsic models existed; no file of either view uses it any more -
+        kept as the fallback for an ARCH_FILES entry without a model.)
         `#[target_feature(enable = "neon")]` becomes a comment: Verus runs rustc for the host target, which rejects a feature
         name of another architecture. The attribute only selects code generation; what it demands of the caller is stated by
         the overlay as `requires cpu_has_neon()` on exactly these functions (C14), as for the x86 entry points."""
@@ -786,6 +838,37 @@ def baseline_path(contracts, arch):
     return os.path.join(contracts, 'baseline_shapes.json' if arch == 'x86_64' else 'baseline_shapes_%s.json' % arch)
 
 
+def prelude_view(text, arch):
+    """The prelude as seen by one view: a top-level module of prelude.rs whose header line is preceded by the line
+    `// @arch <arch>...` (the intrinsic models: `simd` is the x86_64 view's, `neon` the aarch64 view's) is left out of the other
+    views, as the overlay entries of the other view's engines are. Each view's trusted base then holds the model of the
+    intrinsics its own engines use and nothing else. Returns the text and the names of the modules left out."""
+    skipped = []
+    while True:
+        hit = None
+        for m in re.finditer(r'(?m)^// @arch ([\w ]+)\n(?:pub )?mod (\w+) \{', text):
+            archs = m.group(1).split()
+            for a in archs:
+                if a not in set(ARCH_FILES.values()):
+                    raise ExtractError('prelude.rs: unknown architecture in `@arch %s` (mod %s)' % (a, m.group(2)))
+            if arch not in archs:
+                hit = m
+                break
+        if hit is None:
+            return text, skipped
+        k = hit.end() - 1
+        depth = 0
+        while True:
+            if k >= len(text):
+                raise ExtractError('prelude.rs: unbalanced braces in mod %s' % hit.group(2))
+            depth += text[k] == '{'; depth -= text[k] == '}'
+            k += 1
+            if depth == 0:
+                break
+        skipped.append(hit.group(2))
+        text = text[:hit.start()] + '// mod %s: model of the %s view, left out of this view\n' % (hit.group(2), hit.group(1).strip()) + text[k:].lstrip('\n')
+
+
 def build(repo, contracts, arch, report, opts=None):
     if arch not in set(ARCH_FILES.values()):
         raise ExtractError('unknown --arch %s' % arch)
@@ -843,6 +926,7 @@ def build(repo, contracts, arch, report, opts=None):
 
     body = emit([])
     prelude = open(os.path.join(contracts, 'prelude.rs')).read() if os.path.exists(os.path.join(contracts, 'prelude.rs')) else ''
+    prelude, report['prelude_skipped_other_arch'] = prelude_view(prelude, arch)
     spec = ''
     sdir = os.path.join(contracts, 'spec')
     if os.path.isdir(sdir):
